@@ -543,7 +543,14 @@ func runForced(kind string, in []string, scale int) []string {
 	// The model said the last pick must block, the implementation went on: a lock / rendezvous was bypassed.
 	// Complete the run under control (lowest-numbered party that can move, one at a time) so that the
 	// linearizability oracle can judge what the bypass led to.
-	if expectBlock && status == "" {
+	var bypassSnap []string
+	if expectBlock && status == "" && !c.allSettledDone(n) {
+		// what the schedule itself led to (compared with the model) ...
+		c.mu.Lock()
+		bypassSnap = append([]string{"unfinished", string(flags), "-"}, results...)
+		c.mu.Unlock()
+		bypassSnap = append(bypassSnap, "-", e.idsDistinct())
+		// ... and the controlled completion (judged by the oracle only)
 		step := len(sched)
 		for guard := 0; guard < 400; guard++ {
 			c.mu.Lock()
@@ -634,6 +641,22 @@ func runForced(kind string, in []string, scale int) []string {
 		status = "unfinished"
 	}
 	if status != "fin" && status != "bypassed" {
+		if bypassSnap != nil {
+			// completion did not finish: drain, report the schedule's own observation
+			c.mu.Lock()
+			c.free = true
+			for _, pt := range c.parties {
+				if pt.state == stParked {
+					pt.state = stRunning
+					close(pt.release)
+				}
+			}
+			c.mu.Unlock()
+			if !c.waitUntil(100*wait, allFinished) {
+				bypassSnap[0] = "deadlock"
+			}
+			return bypassSnap
+		}
 		// results of unfinished operations are not observations of this schedule
 		c.mu.Lock()
 		snap := append([]string(nil), results...)
@@ -671,9 +694,27 @@ func runForced(kind string, in []string, scale int) []string {
 	for i := range iv {
 		iv[i] = fmt.Sprintf("%d-%d", starts[i], ends[i])
 	}
+	if status == "bypassed" {
+		out := append(bypassSnap, "BYP", strings.Join(iv, ","))
+		out = append(out, results...)
+		return append(out, e.finalListing())
+	}
 	out := []string{status, string(flags), strings.Join(iv, ",")}
 	out = append(out, results...)
 	return append(out, e.finalListing(), e.idsDistinct())
+}
+
+// allSettledDone: every client finished and the enforcer is idle (nothing left to complete).
+func (c *ctl) allSettledDone(n int) bool {
+	c.mu.Lock()
+	for i := 0; i < n; i++ {
+		if c.parties[i].state != stFinished {
+			c.mu.Unlock()
+			return false
+		}
+	}
+	c.mu.Unlock()
+	return c.enfQuiet()
 }
 
 func (c *ctl) enfQuiet() bool {
